@@ -9,10 +9,8 @@ RULE = ("every response kind; every subset of optional members where 2^k <= limi
         "GetAssertion on the same value. The implementation's bytes are compared with the model's and are parsed back with a generic CBOR parser: "
         "status byte 0, one map, every set member once under its specification key, no null member. Non-trivial = distinct (variant, value)")
 ASSUMPTIONS = ["make_credential::UnsignedExtensionOutputs has no constructor outside the crate: that member is always absent"]
-TECHNIQUE = "Coq proof: regenerated response declarations equal the specification member tables; encoder theorems; differential run with parse-back"
-LEVEL_TEXT = ("Kernel-checked equality of every serialisable declaration regenerated from /repo with the specification's member tables for all feature "
-              "sets and of the Response::serialize arm table; theorems about the framing (status byte, empty-map collapse, GetNextAssertion = "
-              "GetAssertion, parameter-less responses); differential run over member subsets with parse-back of the emitted bytes.")
+TECHNIQUE = "Coq proof: regenerated response declarations equal the specification member tables; framing theorems; generic encoder theorems (a struct is one map whose entries are exactly the set members, each once, unset optionals never emitted); differential run with parse-back"
+LEVEL_TEXT = ("Kernel-checked equality of every serialisable declaration regenerated from /repo with the specification's member tables for all feature sets and of the Response::serialize arm table; theorems about the framing (status byte, empty-map collapse, GetNextAssertion = GetAssertion, parameter-less responses) and, for every value, about the structure of the encoder's output (c02_struct_is_one_map, c02_entries_are_set_members, c02_unset_optional_not_emitted, c02_each_member_once); differential run over member subsets with parse-back of the emitted bytes.")
 feature_sets = default_feature_sets
 
 
